@@ -41,6 +41,31 @@ def _api_state(container, kind: str) -> dict:
     return res
 
 
+_PRESETS: dict = {}
+
+
+def _reverse_guides(sp_el) -> None:
+    """Write the standard's adjustment guides of the shape's preset into its a:avLst with their default values, in reverse order
+    (lxml; the values are the standard's, from presetShapeDefinitions.xml)."""
+    from lxml import etree
+    from mbt.extract.enums import preset_table
+    if not _PRESETS:
+        _PRESETS.update({p["name"]: p["alts"][0] for p in preset_table()})
+    A = "http://schemas.openxmlformats.org/drawingml/2006/main"
+    geom = sp_el.find(".//{%s}prstGeom" % A)
+    if geom is None:
+        return
+    av = geom.find("{%s}avLst" % A)
+    if av is None:
+        av = etree.SubElement(geom, "{%s}avLst" % A)
+    for g in list(av):
+        av.remove(g)
+    for gd in reversed([g for g in _PRESETS.get(geom.get("prst"), []) if g["isVal"]]):
+        el = etree.SubElement(av, "{%s}gd" % A)
+        el.set("name", gd["n"])
+        el.set("fmla", "val %d" % gd["v"])
+
+
 def _container(slide, host: str):
     if host == "group":
         grp = [s for s in slide.shapes if s.shape_type is not None and s.shape_type.name == "GROUP"]
@@ -93,6 +118,8 @@ def run_trace(job: tuple) -> dict:
                 data = buf.getvalue()
                 prs = Presentation(io.BytesIO(data))
                 slide = prs.slides[0]
+            if a["op"] == "AddAutoShape" and host == "partial":
+                _reverse_guides(list(slide.shapes)[-1]._element)
             if a["op"] in ("AddAutoShape", "AddChart"):
                 chart_xml = list(_container(slide, host).shapes)[-1].chart.part.blob if kind == "chart" else None
                 o.update(_xml_state(slide.part.blob, chart_xml, kind))
